@@ -224,7 +224,7 @@ def explore_forms(chunk):
                 continue
             tuples = [(first, b, c) for b in pool3 for c in pool3]
         for t in tuples:
-            if "10^400" in t and "*" in fname:
+            if "10^400" in t and "*" in src:
                 continue      # a repeat count of 10^400: resource exhaustion
             args = [sweep.POOL[sweep.POOL_INDEX[a]][1](s) for a in t]
             if any(isinstance(a, (core.ckl.values.ValueInput,
